@@ -66,6 +66,7 @@ pub struct Out {
     sample: Value,
     quiescent: bool,
     addr_checks: u64,
+    close_scripts: u64,
 }
 
 const POINTS: [Point; 4] = [Point::PendingInbound, Point::PendingOutbound, Point::EstablishedInbound, Point::EstablishedOutbound];
@@ -89,6 +90,14 @@ where
         net.add_node(vnet::keypair(rng.next_u64()), move |_, _| b, |c| c.with_idle_connection_timeout(std::time::Duration::from_secs(3600)));
         net.swarm(i).listen_on(mem(100 + i as u64)).unwrap();
         ctls.push(cs);
+    }
+    // graceful-close script per field: the field's handlers return Pending from poll_close 0-2 times (waking themselves)
+    // and then hand out 0-2 final events before Ready(None)
+    for i in 0..nodes {
+        for f in 0..nf {
+            let plan = (rng.usize(3) as u32, rng.usize(3) as u32);
+            ctls[i][f].with(|p| p.default_close_plan = plan);
+        }
     }
     // deny plan: node 0 systematically walks (mask, point); other nodes random
     let combos = (1u64 << nf) * 4;
@@ -136,6 +145,7 @@ where
     }
     let mut app: Vec<Vec<AppEv>> = vec![vec![]; nodes];
     let mut dial_err: Vec<HashMap<ConnectionId, String>> = vec![HashMap::new(); nodes];
+    let mut dial_ok: Vec<Vec<ConnectionId>> = vec![vec![]; nodes];
     let mut c58: Vec<(String, String, Value)> = vec![];
     let mut addr_checks = 0u64;
     let mut emitted_out: HashMap<(usize, usize, ConnectionId), Vec<u64>> = HashMap::new(); // (node, field, conn) -> seqs emitted by handler
@@ -170,8 +180,11 @@ where
                 *ops.entry("dial").or_insert(0) += 1;
                 let o = if rng.bool() { DialOpts::unknown_peer_id().address(mem(100 + j as u64)).build() } else { DialOpts::peer_id(pj).addresses(vec![mem(100 + j as u64)]).condition(PeerCondition::Always).build() };
                 let id = o.connection_id();
-                if let Err(e) = net.swarm(i).dial(o) {
-                    dial_err[i].insert(id, dial_error_kind(&e));
+                match net.swarm(i).dial(o) {
+                    Err(e) => {
+                        dial_err[i].insert(id, dial_error_kind(&e));
+                    }
+                    Ok(()) => dial_ok[i].push(id),
                 }
                 net.touch(i);
             }
@@ -194,6 +207,7 @@ where
                 let after = net.board.with(|b| b.dials.len());
                 match res {
                     Ok(()) => {
+                        dial_ok[i].push(id);
                         // expected: dedup(explicit ++ fields in order), minus own listen addresses
                         let own = mem(100 + i as u64);
                         let mut want: Vec<Multiaddr> = vec![];
@@ -280,6 +294,7 @@ where
     let mut c06: Vec<(String, String, Value)> = vec![];
     let mut sig = Sig::new().u64(nf as u64).u64(mask).u64(case % 4);
     let (mut denied_conns, mut established, mut handler_events, mut notifications) = (0u64, 0u64, 0u64, 0u64);
+    let mut close_scripts = 0u64;
     for i in 0..nodes {
         let logs: Vec<Vec<BEv>> = (0..nf).map(|f| ctls[i][f].log()).collect();
         // (a) identical FromSwarm sequences
@@ -316,6 +331,22 @@ where
                 ids.insert(c);
                 if d {
                     denied_by.entry(c).or_default().push((f, pt));
+                }
+            }
+        }
+        // a veto can only be honoured if it is asked for: every dial the swarm accepted must have been shown to every
+        // field at the pending-outbound decision point, every established connection at its established point
+        for c in &dial_ok[i] {
+            for (f, l) in logs.iter().enumerate() {
+                if !l.iter().any(|e| matches!(e, BEv::PendingOutbound { conn, .. } if conn == c)) {
+                    c06.push(("dial-accepted-without-pending-outbound-decision".into(), format!("node {i}: dial {c} returned Ok although field {f} was never asked (handle_pending_outbound_connection not called)"), json!({"node": i, "field": f, "conn": c.to_string()})));
+                }
+            }
+        }
+        for c in app[i].iter().filter_map(|e| if let AppEv::Est(c) = e { Some(*c) } else { None }) {
+            for (f, l) in logs.iter().enumerate() {
+                if !l.iter().any(|e| matches!(e, BEv::EstablishedInbound { conn, .. } | BEv::EstablishedOutbound { conn, .. } if *conn == c)) {
+                    c06.push(("established-without-established-decision".into(), format!("node {i}: connection {c} reported established although field {f} was never asked (handle_established_*_connection not called)"), json!({"node": i, "field": f, "conn": c.to_string()})));
                 }
             }
         }
@@ -411,7 +442,8 @@ where
                 if !seen.insert(ev.seq) {
                     c58.push(("handler-event-duplicated".into(), format!("node {i}: field {f} received handler event seq {} twice", ev.seq), json!({})));
                 }
-                if !emitted_out.get(&(i, f, *conn)).map(|v| v.contains(&ev.seq)).unwrap_or(false) {
+                let from_close = ctls[i][f].handler(*conn).map(|h| h.with(|x| x.close_emitted.contains(&ev.seq))).unwrap_or(false);
+                if !from_close && !emitted_out.get(&(i, f, *conn)).map(|v| v.contains(&ev.seq)).unwrap_or(false) {
                     c58.push(("handler-event-unknown".into(), format!("node {i}: field {f} received handler event seq {} on {conn} that its handler never emitted there", ev.seq), json!({})));
                 }
             }
@@ -427,6 +459,25 @@ where
                             if !seen.contains(s) {
                                 c58.push(("handler-event-lost".into(), format!("node {i}: handler event seq {s} of field {f} on open connection {c} never reached the field"), json!({})));
                             }
+                        }
+                    }
+                }
+            }
+            // graceful close: a handler whose poll_close was started is driven until it returns Ready(None), and every
+            // final event it hands out reaches its own field
+            if quiescent {
+                let hs: Vec<vnet::HandlerCtl> = ctls[i][f].with(|p| p.handlers.values().cloned().collect());
+                for h in hs {
+                    let (conn, state, emitted, pend, left) = h.with(|x| (x.conn, x.close_state, x.close_emitted.clone(), x.close_pending_left, x.close_events_left));
+                    if state != 0 {
+                        close_scripts += 1;
+                    }
+                    if state == 1 {
+                        c58.push(("handler-close-abandoned".into(), format!("node {i}: poll_close of field {f}'s handler on {conn} was started but never driven to Ready(None) ({pend} Pending returns and {left} final events still to come); the other fields' handlers finished"), json!({"node": i, "field": f, "conn": conn.to_string()})));
+                    }
+                    for sq in &emitted {
+                        if !seen.contains(sq) {
+                            c58.push(("handler-close-event-lost".into(), format!("node {i}: final event {sq} handed out by poll_close of field {f}'s handler on {conn} never reached the field"), json!({"node": i, "field": f, "conn": conn.to_string()})));
                         }
                     }
                 }
@@ -455,7 +506,7 @@ where
     }
     let sample = json!({"fields": nf, "nodes": nodes, "node0_deny_mask": mask, "node0_deny_point": format!("{point:?}"), "ops": ops,
         "node0_app_events": app[0].iter().take(20).map(|e| format!("{e:?}")).collect::<Vec<_>>()});
-    Out { sig: sig.0, interleaving: net.trace.0, denied_conns, established, handler_events, notifications, c06, c58, sample, quiescent, addr_checks }
+    Out { sig: sig.0, interleaving: net.trace.0, denied_conns, established, handler_events, notifications, c06, c58, sample, quiescent, addr_checks, close_scripts }
 }
 
 fn run_common(args: &Args, which: &str) -> i32 {
@@ -490,6 +541,7 @@ fn run_common(args: &Args, which: &str) -> i32 {
         check.count("handler_events_observed", o.handler_events);
         check.count("handler_notifications_observed", o.notifications);
         check.count("address_union_checks", o.addr_checks);
+        check.count("handler_poll_close_scripts_run", o.close_scripts);
         if !o.quiescent {
             check.inconclusive("not quiescent within step budget");
         }
